@@ -52,6 +52,7 @@ def parseInstr (s : String) : Option BInstr :=
   | ["assign"] => some .assign
   | ["popscopetransfer"] => some .popScopeXfer
   | ["preparecall", n] => n.toNat?.map .prepareCall
+  | ["tailguard", off] => (parseInt? off).map .tailGuard
   | _ => none
 
 def parseKind : String → Option FnKind
